@@ -319,6 +319,8 @@ func (d *destClient) AddSequencedLeaves(ctx context.Context, in *trillian.AddSeq
 		return nil, gstatus.Error(codes.Internal, "disk on fire")
 	case "deadline":
 		return nil, gstatus.Error(codes.DeadlineExceeded, "too slow")
+	case "canceled":
+		return nil, gstatus.Error(codes.Canceled, "request canceled by the server side")
 	}
 	return d.log.AddSequencedLeaves(ctx, in)
 }
@@ -512,6 +514,9 @@ func runScenario(sc scenario) func(t *testing.T, x *gate.Exec) {
 						add(p.Key+" <- ResourceExhausted", base+1, func() { faults--; reOut[batch] = true; env.Answer(p, "exhausted") })
 						add(p.Key+" <- Internal", base+1, func() { faults--; delete(reOut, batch); env.Answer(p, "internal") })
 						add(p.Key+" <- DeadlineExceeded", base+1, func() { faults--; delete(reOut, batch); env.Answer(p, "deadline") })
+						// a Canceled status that comes from the destination (a proxy, a restarting front end) while the
+						// migrator's own context is live: a failed batch like any other
+						add(p.Key+" <- Canceled (by the server)", base+1, func() { faults--; delete(reOut, batch); env.Answer(p, "canceled") })
 					}
 				case "src":
 					info := p.Info.(srcInfo)
@@ -721,7 +726,7 @@ func oracle(sc scenario, x *gate.Exec, w *world, dlog *reflog.Log, runs []runRes
 		for _, r := range runs {
 			if ai >= r.addsFrom && ai < r.addsTo {
 				for aj := r.addsFrom; aj < r.addsTo && aj < len(w.addAnswers); aj++ {
-					if b := w.addAnswers[aj]; aj != ai && (b == "internal" || b == "deadline") {
+					if b := w.addAnswers[aj]; aj != ai && (b == "internal" || b == "deadline" || b == "canceled") {
 						aborted = true
 					}
 				}
@@ -739,7 +744,7 @@ func oracle(sc scenario, x *gate.Exec, w *world, dlog *reflog.Log, runs []runRes
 			endAdds = w.rootsAnswered[pi+1].addsLen
 		}
 		for ai := ro.addsLen; ai < endAdds; ai++ {
-			if a := w.addAnswers[ai]; a == "internal" || a == "deadline" {
+			if a := w.addAnswers[ai]; a == "internal" || a == "deadline" || a == "canceled" {
 				for aj := ai + 1; aj < endAdds; aj++ {
 					if proto.Equal(w.adds[aj], w.adds[ai]) {
 						x.Violation("fatal-destination-error-retried", "%v: batch starting at %d was answered %s and sent again in the same pass", sc, w.adds[ai].Leaves[0].LeafIndex, a)
@@ -751,7 +756,7 @@ func oracle(sc scenario, x *gate.Exec, w *world, dlog *reflog.Log, runs []runRes
 	if !sc.Continuous {
 		for _, r := range runs {
 			for ai := r.addsFrom; ai < r.addsTo && ai < len(w.addAnswers); ai++ {
-				if a := w.addAnswers[ai]; (a == "internal" || a == "deadline") && r.err == nil {
+				if a := w.addAnswers[ai]; (a == "internal" || a == "deadline" || a == "canceled") && r.err == nil {
 					x.Violation("fatal-destination-error-swallowed", "%v: a batch was answered %s but the run reported success", sc, a)
 				}
 			}
